@@ -1,7 +1,8 @@
 HOOK_COMMITS = []
 ENGINES = [
     {"name": "runner", "path": "vlib/runner.py", "serves_properties": ["C01"], "kind_free_text": "Hypothesis driver: seeded workers, collect-then-shrink per root-cause key, plain-JSON replay, evidence"},
-    {"name": "E1 refcodec", "path": "vlib/refcodec.py", "serves_properties": ["C01"], "kind_free_text": "independent RFC 7252 section 3 codec used as differential oracle and by the raw peers"},
+    {"name": "E1 refcodec", "path": "vlib/refcodec.py", "serves_properties": ["C01","C02","C03"], "kind_free_text": "independent RFC 7252 section 3 codec used as differential oracle and by the raw peers"},
+    {"name": "E2 simnet", "path": "vlib/simnet.py", "serves_properties": ["C02", "C03"], "kind_free_text": "virtual-clock asyncio loop + simulated datagram network under the real aiocoap stack; scripted raw peers; per-datagram fates"},
 ]
 ALL = ["C%02d" % i for i in range(1, 21)]
 CHECKS = [
@@ -10,6 +11,20 @@ CHECKS = [
         "technique": "property-based differential testing against an independent RFC 7252 codec; round-trip; mutation fuzzing; exhaustive sweeps of extended fields and headers",
         "text": "Generated messages, RFC-well-formed datagrams and arbitrary/mutated byte strings are compared with an independently written RFC 7252 section 3 codec and with the round-trip law; extended-field values and all (first byte, code) headers are enumerated completely. Sampling cannot show absence, the finite sweeps are exhaustive.",
         "note": "trusted: vlib/refcodec.py as a reading of RFC 7252 s.3 (self-tested against RFC-derived byte strings), Hypothesis; option formats per the RFC tables",
+    },
+]
+CHECKS += [
+    {
+        "id": "C02", "engine": "E2 simnet + Hypothesis", "level": "exploration",
+        "technique": "property-based testing of generated network histories (loss/dup/delay/forgery/ICMP/shutdown) on a virtual-clock simulated net; history invariant over delivery-by-delivery snapshots of all response futures",
+        "text": "Concurrent requests against scripted raw servers with generated datagram fates, forged responses, transport errors and shutdown; after every delivery the oracle decides from the wire and the futures whether exactly the matching outstanding request completed, and that unmatched responses are reset/ignored. Sampled histories, not exhaustive.",
+        "note": "trusted: vlib/simnet.py (virtual clock, fake datagram transport), vlib/refcodec.py, Hypothesis; the real TokenManager/MessageManager/MessageInterfaceUDP6 run unmodified",
+    },
+    {
+        "id": "C03", "engine": "E2 simnet + Hypothesis + finite grid", "level": "fault_enumeration",
+        "technique": "exhaustive enumeration of a finite grid of loss/reply faults plus property-based sampling of tunings, reply plans and datagram fates on a virtual clock; timing oracle over wire timestamps",
+        "text": "The retransmission schedule is read off the simulated wire with exact virtual timestamps: the grid (6 tunings x reply at copy k x 8 reply kinds x 3 delay positions x reply lost) is enumerated completely, continuous parameters are sampled.",
+        "note": "trusted: vlib/simnet.py virtual clock (timer order and times are those of asyncio's scheduler), refcodec",
     },
 ]
 claimed = {c["id"] for c in CHECKS}
